@@ -66,6 +66,7 @@ class Builder:
         self.key = tree_hash()
         self.dir = os.path.join(ROOT, 'build', self.key)
         os.makedirs(self.dir, exist_ok=True)
+        os.utime(self.dir, None)
         os.makedirs(os.path.join(self.dir, 'logs'), exist_ok=True)
         self.lock = open(os.path.join(ROOT, 'build', '.lock'), 'w')
 
@@ -80,8 +81,12 @@ class Builder:
         base = os.path.join(ROOT, 'build')
         ds = [d for d in os.listdir(base) if re.fullmatch(r'[0-9a-f]{16}', d) and d != self.key]
         ds.sort(key=lambda d: os.path.getmtime(os.path.join(base, d)), reverse=True)
+        # keep the newest other tree and anything touched in the last 90 minutes (a concurrent run
+        # against another tree, e.g. the seeded-change audit, may still be executing from it)
+        now = time.time()
         for d in ds[1:]:
-            shutil.rmtree(os.path.join(base, d), ignore_errors=True)
+            if now - os.path.getmtime(os.path.join(base, d)) > 5400:
+                shutil.rmtree(os.path.join(base, d), ignore_errors=True)
 
     def path(self, name):
         return os.path.join(self.dir, name)
